@@ -181,6 +181,7 @@ pub fn arb_op(o: &HistOpts) -> BoxedStrategy<Op> {
         4 => Just(TimerKind::Exact),
         1 => late.clone().prop_map(TimerKind::Early),
         4 => late.prop_map(TimerKind::Late),
+        2 => (1u8..=160).prop_map(TimerKind::LateHalfRtos),
         1 => Just(TimerKind::Now),
     ];
     let app = arb_app_attrs(o.app_attrs);
@@ -190,6 +191,7 @@ pub fn arb_op(o: &HistOpts) -> BoxedStrategy<Op> {
             .prop_map(|(method, attrs, small_buf)| Op::Send { method, attrs, small_buf }),
         1 => (arb_method(), app).prop_map(|(method, attrs)| Op::Indication { method, attrs }),
         2 => arb_dt().prop_map(Op::Advance),
+        1 => (1u8..=64).prop_map(Op::AdvanceHalfRtos),
         o.timer_weight => timer.prop_map(Op::Timer),
         o.deliver_weight => arb_reply().prop_map(Op::Deliver),
         hostile => prop_oneof![
